@@ -1593,7 +1593,9 @@ pub fn check(c: &StmtCase, ctx: &mut CaseCtx) -> Result<(), Fail> {
             },
         }
         let n = rows_returned(&got);
-        if n >= 1 {
+        // the stated rule counts reading statements (a query that returned data), not the id a write reports
+        let reads = matches!(st.kind, "select" | "node-get" | "node-list" | "edge-get" | "edge-list" | "neighbors" | "path" | "similar" | "show-tables");
+        if n >= 1 && reads {
             returned_rows += 1;
             ctx.label(format!("rows>=1:{}", st.kind));
         }
